@@ -194,6 +194,29 @@ def _derefs(expr, tracked: typing.Callable[[str], typing.Optional[str]], facts: 
   walk(expr, set(facts))
 
 
+def _may_assign(ix, cls, mname, field, seen) -> bool:
+  """May calling self.<mname>() re-bind self.<field>?  (the method, or a method of self it calls, assigns it;
+  unknown methods are assumed to)"""
+  if cls is None or mname is None:
+    return True
+  m = ix.lookup_method(cls, mname)
+  if m is None:
+    return False      # a callable held in an attribute (not a method of the class): it has no access to self
+  if (m.qualname, field) in seen:
+    return False
+  seen.add((m.qualname, field))
+  for n in own_nodes(m.node):
+    if isinstance(n, (ast.Assign, ast.AugAssign, ast.AnnAssign)):
+      for t in (n.targets if isinstance(n, ast.Assign) else [n.target]):
+        for x in ast.walk(t):
+          if isinstance(x, ast.Attribute) and x.attr == field and isinstance(x.value, ast.Name) and x.value.id == "self":
+            return True
+    if isinstance(n, ast.Call) and isinstance(n.func, ast.Attribute) and isinstance(n.func.value, ast.Name) and n.func.value.id == "self":
+      if _may_assign(ix, cls, n.func.attr, field, seen):
+        return True
+  return False
+
+
 def check_sources(ctx, funcs: typing.Iterable[FuncInfo], src: NullSources, rule="NUL"):
   n_tracked = 0
   for f in funcs:
@@ -236,7 +259,7 @@ def check_sources(ctx, funcs: typing.Iterable[FuncInfo], src: NullSources, rule=
             name = n.func.attr if isinstance(n.func, ast.Attribute) else None
             if cp == "self":
               for p in list(st):
-                if p.startswith("self."):
+                if p.startswith("self.") and _may_assign(ctx.ix, f.cls, name, p.split(".")[1].split("(")[0], set()):
                   st.discard(p)
             if name is not None and name.startswith(("set_", "remove", "put_", "push_")):
               # a setter on recv may invalidate getter facts on recv
